@@ -1,6 +1,7 @@
 package kv
 
 import (
+	"context"
 	"encoding/json"
 	"fmt"
 	"os"
@@ -116,10 +117,48 @@ func solveOne(o *Obligation, timeoutSec int, all bool) {
 	if all {
 		r = RunSolvers(q, false, timeoutSec, true, nil)
 	} else {
-		// fast path: the new z3 alone for a short time, then the whole portfolio
+		// fast path: the new z3 alone for a short time, then the whole portfolio raced with the
+		// pruned variants of the query (fewer hypotheses: an unsat answer of a variant is a proof,
+		// any other answer of a variant means nothing)
 		r = RunSolvers(q, false, 3, false, []string{"z3-new"})
 		if r.Status != "unsat" && r.Status != "sat" {
-			r = RunSolvers(q, false, timeoutSec, false, nil)
+			ctx, cancel := context.WithCancel(context.Background())
+			type vr struct {
+				v int
+				r SolverResult
+			}
+			n := 1
+			if o.KeepTag != "" {
+				n = 4
+			}
+			ch := make(chan vr, n)
+			go func() { ch <- vr{0, RunSolversCtx(ctx, q, false, timeoutSec, false, nil)} }()
+			for v := 1; v < n; v++ {
+				go func(v int) { ch <- vr{v, RunSolversCtx(ctx, o.unit.QueryVariant(o, v), false, timeoutSec, false, nil)} }(v)
+			}
+			var full *SolverResult
+			for i := 0; i < n; i++ {
+				x := <-ch
+				if x.r.Status == "unsat" {
+					if x.v > 0 {
+						x.r.Solver += fmt.Sprintf("/pruned%d", x.v)
+					}
+					r = x.r
+					break
+				}
+				if x.v == 0 {
+					xr := x.r
+					full = &xr
+					if x.r.Status == "sat" {
+						r = x.r
+						break
+					}
+				}
+			}
+			cancel()
+			if r.Status != "unsat" && r.Status != "sat" && full != nil {
+				r = *full
+			}
 		}
 	}
 	if r.Status == "sat" || r.Status == "inconsistent" {
@@ -146,12 +185,12 @@ func DumpQuery(o *Obligation, dir string) string {
 // ---------------------------------------------------------------------------------------
 
 type Claim struct {
-	Property  string   `json:"property"`
-	Functions []string `json:"functions"` // contract keys "<pkg rel path>.<Key>"
-	Lemmas    []string `json:"lemmas,omitempty"`
-	MinObligations int `json:"min_obligations,omitempty"`
-	Bounded   []string `json:"bounded,omitempty"`
-	Notes     string   `json:"notes,omitempty"`
+	Property       string   `json:"property"`
+	Functions      []string `json:"functions"` // contract keys "<pkg rel path>.<Key>"
+	Lemmas         []string `json:"lemmas,omitempty"`
+	MinObligations int      `json:"min_obligations,omitempty"`
+	Bounded        []string `json:"bounded,omitempty"`
+	Notes          string   `json:"notes,omitempty"`
 }
 
 func LoadClaim(path string) (*Claim, error) {
